@@ -611,6 +611,20 @@ func (vf *VFlow) loadCell(cell *ssa.Alloc, fl uint8, out LabelSet, seen map[stri
 	default:
 		if len(st) == 0 {
 			out.add("const:zero", fl)
+		} else if _, isBasic := et.Underlying().(*types.Basic); isBasic {
+			// a scalar declared without initialiser and only assigned inside closures: a closure that runs
+			// before (or without) the assigning one sees the zero value
+			own := false
+			for _, b := range cell.Parent().Blocks {
+				for _, in := range b.Instrs {
+					if s, ok := in.(*ssa.Store); ok && s.Addr == ssa.Value(cell) {
+						own = true
+					}
+				}
+			}
+			if !own {
+				out.add("const:zero", fl)
+			}
 		}
 	}
 	if vf.decoded[cell] {
